@@ -6,6 +6,7 @@
 #
 #############################################################################
 import datetime
+import math
 from typing import TYPE_CHECKING, Optional, cast
 
 import sqlalchemy as sa
@@ -46,6 +47,22 @@ class Period(ModelMixin["Period"], Base):
     @classmethod
     def get(cls, **kwargs) -> Optional["Period"]:
         return cast(Period | None, cls.get_one(**kwargs))
+
+    def start_timecode(self, timescale: int) -> int:
+        """
+        The position in the source media at which this Period starts, in
+        units of the given timescale. The position is taken on the grid of
+        the timing reference of the stream, so that every track of the
+        Period starts from the same instant.
+        """
+        timing_ref = self.stream.timing_reference
+        assert timing_ref is not None
+        start_tc: int = int(math.floor(
+            self.start.total_seconds() * timing_ref.timescale))
+        if timescale != timing_ref.timescale:
+            start_tc = int(math.floor(
+                start_tc * timescale / timing_ref.timescale))
+        return start_tc
 
     def presentation_duration(self) -> datetime.timedelta:
         """
